@@ -1307,4 +1307,618 @@ theorem group_emitted_whole (es out : List Ev) (ht : Tame t0 es) (hE : qsOf g es
 
 end track
 
+
+/-! ### `detect_final` as per-sync-group aggregates -/
+
+def lookupSG (t : String) : List (String × SG) → Option SG
+  | [] => none
+  | (k, s) :: m => if k = t then some s else lookupSG t m
+
+theorem lookup_sgUpdate (t : String) (q : Q) (m : List (String × SG)) :
+    lookupSG t (sgUpdate q m) =
+      if q.h.sync = t then some (sgStep ((lookupSG t m).getD {}) q) else lookupSG t m := by
+  induction m with
+  | nil =>
+    simp only [sgUpdate, lookupSG]
+    split <;> simp
+  | cons a m ih =>
+    obtain ⟨k, s⟩ := a
+    simp only [sgUpdate]
+    split
+    · rename_i hk
+      simp only [lookupSG]
+      by_cases ht : q.h.sync = t
+      · simp [ht, hk.trans ht]
+      · have : ¬ k = t := fun h => ht (hk.symm.trans h)
+        simp [ht, this]
+    · rename_i hk
+      simp only [lookupSG]
+      by_cases hkt : k = t
+      · have : ¬ q.h.sync = t := fun h => hk (hkt.trans h.symm)
+        simp [hkt, this]
+      · simp only [hkt, if_false]; exact ih
+
+/-- fold of one sync group's events onto an optional previous state -/
+def foldOpt (o : Option SG) (l : List Q) : Option SG :=
+  match l with
+  | [] => o
+  | _ :: _ => some (l.foldl sgStep (o.getD {}))
+
+theorem foldOpt_cons (o : Option SG) (q : Q) (l : List Q) :
+    foldOpt o (q :: l) = foldOpt (some (sgStep (o.getD {}) q)) l := by
+  cases l <;> simp [foldOpt]
+
+theorem lookup_sgFold (t : String) : ∀ (qs : List Q) (m : List (String × SG)),
+    lookupSG t (sgFold m qs) = foldOpt (lookupSG t m) (qs.filter (fun q => decide (q.h.sync = t))) := by
+  intro qs
+  induction qs with
+  | nil => intro m; simp [sgFold, foldOpt]
+  | cons q qs ih =>
+    intro m
+    simp only [sgFold, ih, lookup_sgUpdate]
+    by_cases ht : q.h.sync = t
+    · simp [ht, foldOpt_cons]
+    · simp [ht]
+
+theorem keys_sgUpdate (q : Q) (m : List (String × SG)) :
+    (sgUpdate q m).map (·.1) = if q.h.sync ∈ m.map (·.1) then m.map (·.1) else m.map (·.1) ++ [q.h.sync] := by
+  induction m with
+  | nil => simp [sgUpdate]
+  | cons a m ih =>
+    obtain ⟨k, s⟩ := a
+    simp only [sgUpdate]
+    split
+    · rename_i hk; simp [hk]
+    · rename_i hk
+      simp only [List.map_cons, ih, List.mem_cons]
+      have : ¬ q.h.sync = k := fun h => hk h.symm
+      by_cases hm : q.h.sync ∈ m.map (·.1)
+      · simp [hm]
+      · simp [hm, this]
+
+theorem keys_sgFold : ∀ (qs : List Q) (m : List (String × SG)), (m.map (·.1)).Nodup →
+    ((sgFold m qs).map (·.1)).Nodup ∧
+    ∀ t, t ∈ (sgFold m qs).map (·.1) ↔ t ∈ m.map (·.1) ∨ ∃ q ∈ qs, q.h.sync = t := by
+  intro qs
+  induction qs with
+  | nil => intro m hn; simp [sgFold, hn]
+  | cons q qs ih =>
+    intro m hn
+    have hn' : ((sgUpdate q m).map (·.1)).Nodup := by
+      rw [keys_sgUpdate]
+      split
+      · exact hn
+      · rename_i hm
+        exact List.nodup_append.mpr ⟨hn, by simp, by
+          intro a ha b hb; simp only [List.mem_singleton] at hb; subst hb; intro hab; exact hm (hab ▸ ha)⟩
+    obtain ⟨a, b⟩ := ih (sgUpdate q m) hn'
+    refine ⟨a, ?_⟩
+    intro t
+    simp only [sgFold, b, keys_sgUpdate]
+    split
+    · rename_i hm
+      constructor
+      · rintro (h | ⟨x, hx, rfl⟩)
+        · exact Or.inl h
+        · exact Or.inr ⟨x, List.mem_cons_of_mem _ hx, rfl⟩
+      · rintro (h | ⟨x, hx, rfl⟩)
+        · exact Or.inl h
+        · rcases List.mem_cons.mp hx with rfl | hx
+          · exact Or.inl hm
+          · exact Or.inr ⟨x, hx, rfl⟩
+    · constructor
+      · rintro (h | ⟨x, hx, rfl⟩)
+        · rcases List.mem_append.mp h with h | h
+          · exact Or.inl h
+          · simp only [List.mem_singleton] at h; subst h; exact Or.inr ⟨q, by simp, rfl⟩
+        · exact Or.inr ⟨x, List.mem_cons_of_mem _ hx, rfl⟩
+      · rintro (h | ⟨x, hx, rfl⟩)
+        · exact Or.inl (List.mem_append_left _ h)
+        · rcases List.mem_cons.mp hx with rfl | hx
+          · exact Or.inl (List.mem_append_right _ (by simp))
+          · exact Or.inr ⟨x, hx, rfl⟩
+
+theorem all_closed_of_lookup : ∀ (m : List (String × SG)), (m.map (·.1)).Nodup →
+    (∀ t ∈ m.map (·.1), ∃ s, lookupSG t m = some s ∧ s.closed = true) → m.all (fun p => p.2.closed) = true := by
+  intro m
+  induction m with
+  | nil => intro _ _; rfl
+  | cons a m ih =>
+    obtain ⟨k, s⟩ := a
+    intro hn h
+    simp only [List.map_cons, List.nodup_cons] at hn
+    simp only [List.all_cons, Bool.and_eq_true]
+    constructor
+    · obtain ⟨s', hs', hc⟩ := h k (by simp)
+      simp only [lookupSG, if_true, Option.some.injEq] at hs'
+      subst hs'; exact hc
+    · apply ih hn.2
+      intro t ht
+      obtain ⟨s', hs', hc⟩ := h t (by simp [ht])
+      have : ¬ k = t := fun hk => hn.1 (hk ▸ ht)
+      simp only [lookupSG, this, if_false] at hs'
+      exact ⟨s', hs', hc⟩
+
+theorem two_le_length {α : Type} {l : List α} (hn : l.Nodup) {a b : α} (ha : a ∈ l) (hb : b ∈ l) (hab : a ≠ b) :
+    2 ≤ l.length := by
+  match l, hn, ha, hb with
+  | [], _, ha, _ => simp at ha
+  | [x], _, ha, hb =>
+    simp only [List.mem_singleton] at ha hb
+    exact absurd (ha.trans hb.symm) hab
+  | _ :: _ :: _, _, _, _ => simp
+
+/-- `detect_final` holds as soon as two different sync tags occur and every sync group, folded on its own, is closed -/
+theorem detectFinal_of_tags (q : List Q) (a b : Q) (ha : a ∈ q) (hb : b ∈ q) (hab : a.h.sync ≠ b.h.sync)
+    (hcl : ∀ x ∈ q, ((q.filter (fun y => decide (y.h.sync = x.h.sync))).foldl sgStep {}).closed = true) :
+    detectFinal q = true := by
+  obtain ⟨hn, hk⟩ := keys_sgFold q [] (by simp)
+  simp only [detectFinal, Bool.and_eq_true, decide_eq_true_eq]
+  constructor
+  · have h1 : a.h.sync ∈ (sgFold [] q).map (·.1) := (hk _).mpr (Or.inr ⟨a, ha, rfl⟩)
+    have h2 : b.h.sync ∈ (sgFold [] q).map (·.1) := (hk _).mpr (Or.inr ⟨b, hb, rfl⟩)
+    have := two_le_length hn h1 h2 hab
+    simp only [List.length_map] at this
+    omega
+  · apply all_closed_of_lookup _ hn
+    intro t ht
+    rcases (hk t).mp ht with h | ⟨x, hx, rfl⟩
+    · simp at h
+    · rw [lookup_sgFold]
+      have hne : x ∈ q.filter (fun y => decide (y.h.sync = x.h.sync)) := by simp [hx]
+      cases hf : q.filter (fun y => decide (y.h.sync = x.h.sync)) with
+      | nil => rw [hf] at hne; simp at hne
+      | cons y ys =>
+        refine ⟨_, rfl, ?_⟩
+        have := hcl x hx
+        rw [hf] at this
+        simpa [lookupSG] using this
+
+/-! ### aggregates of one sync group -/
+
+def opnOf (q : Q) : Nat :=
+  if q.h.typ = TYPE_BCLIST then q.h.peers.length
+  else if q.h.typ = TYPE_MCAST then 1 else if q.h.typ = TYPE_SEND then 1 else 0
+
+def clsOf (q : Q) : Nat := if q.h.typ = TYPE_DONE then 1 else 0
+
+theorem sgStep_opn (s : SG) (q : Q) : (sgStep s q).opn = s.opn + opnOf q := by
+  simp only [sgStep, opnOf]
+  split
+  · rfl
+  · split
+    · rfl
+    · split <;> rfl
+
+theorem sgStep_cls (s : SG) (q : Q) : (sgStep s q).cls = s.cls + clsOf q := by
+  simp only [sgStep, clsOf]
+  split <;> rfl
+
+theorem fold_opn : ∀ (l : List Q) (s : SG), (l.foldl sgStep s).opn = s.opn + (l.map opnOf).sum := by
+  intro l
+  induction l with
+  | nil => intro s; simp
+  | cons a l ih => intro s; simp only [List.foldl_cons, ih, sgStep_opn, List.map_cons, List.sum_cons]; omega
+
+theorem fold_cls : ∀ (l : List Q) (s : SG), (l.foldl sgStep s).cls = s.cls + (l.map clsOf).sum := by
+  intro l
+  induction l with
+  | nil => intro s; simp
+  | cons a l ih => intro s; simp only [List.foldl_cons, ih, sgStep_cls, List.map_cons, List.sum_cons]; omega
+
+theorem mem_setAdd {s : List Int} {x y : Int} : x ∈ setAdd s y ↔ x ∈ s ∨ x = y := by
+  unfold setAdd
+  split
+  · rename_i h
+    constructor
+    · exact Or.inl
+    · rintro (h' | rfl)
+      · exact h'
+      · exact h
+  · simp
+
+theorem nodup_setAdd {s : List Int} {y : Int} (h : s.Nodup) : (setAdd s y).Nodup := by
+  unfold setAdd
+  split
+  · exact h
+  · rename_i hm
+    exact List.nodup_append.mpr ⟨h, by simp, by
+      intro a ha b hb; simp only [List.mem_singleton] at hb; subst hb; intro hab; exact hm (hab ▸ ha)⟩
+
+theorem length_setAdd_le (s : List Int) (y : Int) : s.length ≤ (setAdd s y).length := by
+  unfold setAdd; split <;> simp
+
+theorem setAddAll_spec : ∀ (l s : List Int), (s.Nodup → (setAddAll s l).Nodup) ∧ s.length ≤ (setAddAll s l).length ∧
+    ∀ x, x ∈ setAddAll s l ↔ x ∈ s ∨ x ∈ l := by
+  intro l
+  induction l with
+  | nil => intro s; simp [setAddAll]
+  | cons a l ih =>
+    intro s
+    obtain ⟨h1, h2, h3⟩ := ih (setAdd s a)
+    refine ⟨fun hn => h1 (nodup_setAdd hn), Nat.le_trans (length_setAdd_le s a) h2, ?_⟩
+    intro x
+    simp only [setAddAll, h3, mem_setAdd, List.mem_cons]
+    constructor
+    · rintro ((h | h) | h)
+      · exact Or.inl h
+      · exact Or.inr (Or.inl h)
+      · exact Or.inr (Or.inr h)
+    · rintro (h | h | h)
+      · exact Or.inl (Or.inl h)
+      · exact Or.inl (Or.inr h)
+      · exact Or.inr h
+
+theorem sgStep_peers (s : SG) (q : Q) : (sgStep s q).peers = setAddAll (setAdd s.peers q.ev.pid) q.h.peers := rfl
+
+theorem fold_peers : ∀ (l : List Q) (s : SG), (s.peers.Nodup → (l.foldl sgStep s).peers.Nodup) ∧
+    s.peers.length ≤ (l.foldl sgStep s).peers.length ∧
+    ∀ x, x ∈ (l.foldl sgStep s).peers ↔ x ∈ s.peers ∨ ∃ q ∈ l, x = q.ev.pid ∨ x ∈ q.h.peers := by
+  intro l
+  induction l with
+  | nil => intro s; simp
+  | cons a l ih =>
+    intro s
+    obtain ⟨h1, h2, h3⟩ := ih (sgStep s a)
+    obtain ⟨g1, g2, g3⟩ := setAddAll_spec a.h.peers (setAdd s.peers a.ev.pid)
+    refine ⟨?_, ?_, ?_⟩
+    · intro hn
+      exact h1 (by rw [sgStep_peers]; exact g1 (nodup_setAdd hn))
+    · simp only [List.foldl_cons]
+      refine Nat.le_trans ?_ h2
+      rw [sgStep_peers]
+      exact Nat.le_trans (length_setAdd_le _ _) g2
+    · intro x
+      simp only [List.foldl_cons, h3, sgStep_peers, g3, mem_setAdd, List.mem_cons]
+      constructor
+      · rintro (((h | h) | h) | ⟨q, hq, h⟩)
+        · exact Or.inl h
+        · exact Or.inr ⟨a, Or.inl rfl, Or.inl h⟩
+        · exact Or.inr ⟨a, Or.inl rfl, Or.inr h⟩
+        · exact Or.inr ⟨q, Or.inr hq, h⟩
+      · rintro (h | ⟨q, (rfl | hq), h⟩)
+        · exact Or.inl (Or.inl (Or.inl h))
+        · rcases h with h | h
+          · exact Or.inl (Or.inl (Or.inr h))
+          · exact Or.inl (Or.inr h)
+        · exact Or.inr ⟨q, hq, h⟩
+
+theorem sgStep_mcast (s : SG) (q : Q) : (sgStep s q).mcast =
+    (s.mcast || decide ((sgStep s q).peers.length > 2) || decide (q.h.typ = TYPE_BCLIST) || decide (q.h.typ = TYPE_MCAST)) := rfl
+
+theorem fold_mcast_stick : ∀ (l : List Q) (s : SG), s.mcast = true → (l.foldl sgStep s).mcast = true := by
+  intro l
+  induction l with
+  | nil => intro s h; exact h
+  | cons a l ih => intro s h; exact ih _ (by rw [sgStep_mcast, h]; rfl)
+
+theorem fold_mcast_true : ∀ (l : List Q) (s : SG), (∃ q ∈ l, q.h.typ = TYPE_BCLIST) → (l.foldl sgStep s).mcast = true := by
+  intro l
+  induction l with
+  | nil => intro s h; obtain ⟨q, hq, _⟩ := h; simp at hq
+  | cons a l ih =>
+    intro s h
+    obtain ⟨q, hq, ht⟩ := h
+    rcases List.mem_cons.mp hq with rfl | hq
+    · exact fold_mcast_stick l _ (by rw [sgStep_mcast]; simp [ht])
+    · exact ih _ ⟨q, hq, ht⟩
+
+theorem fold_mcast_false : ∀ (l : List Q) (s : SG), s.mcast = false → (l.foldl sgStep s).peers.length ≤ 2 →
+    (∀ q ∈ l, q.h.typ ≠ TYPE_BCLIST ∧ q.h.typ ≠ TYPE_MCAST) → (l.foldl sgStep s).mcast = false := by
+  intro l
+  induction l with
+  | nil => intro s h _ _; exact h
+  | cons a l ih =>
+    intro s h hlen hty
+    apply ih (sgStep s a) ?_ hlen (fun q hq => hty q (List.mem_cons_of_mem _ hq))
+    have hmono := (fold_peers l (sgStep s a)).2.1
+    simp only [List.foldl_cons] at hlen
+    have h1 : ¬ (sgStep s a).peers.length > 2 := by omega
+    obtain ⟨t1, t2⟩ := hty a (by simp)
+    rw [sgStep_mcast]
+    simp [h, h1, t1, t2]
+
+/-- `closed` as recomputed by every step from the state it has just produced -/
+def closedFn (s : SG) : Bool :=
+  decide (s.peers.length > 1) && decide (s.cls > 0) &&
+    (if s.mcast then decide (2 * s.peers.length = s.opn + 1) && decide (s.cls + 1 = s.peers.length)
+     else decide (s.opn > 0) && decide (s.cls + 1 = s.peers.length))
+
+theorem sgStep_closed (s : SG) (q : Q) : (sgStep s q).closed = closedFn (sgStep s q) := rfl
+
+theorem fold_closed : ∀ (l : List Q) (s : SG), l ≠ [] → (l.foldl sgStep s).closed = closedFn (l.foldl sgStep s) := by
+  intro l
+  induction l with
+  | nil => intro s h; exact absurd rfl h
+  | cons a l ih =>
+    intro s _
+    cases l with
+    | nil => exact sgStep_closed s a
+    | cons b l => exact ih (sgStep s a) (by simp)
+
+/-! ### the complete chain all-reduce group -/
+
+/-- the helper events of one chain all-reduce of `R` ranks (everything `detect_final` does not read —
+timestamps, durations, tids, names — is arbitrary): `snd r`/`rcv r` the single cast `r → r+1` and its
+receive (sync tag `tag r`), on the last rank the BC list naming ranks `0..R-2`, one segment send `xs p` per
+other rank, the multicast `md`, and a receive `mr p` on every other rank (sync tag `mtag`) -/
+structure ChainSpec where
+  R : Nat
+  tag : Nat → String
+  mtag : String
+  snd : Nat → Q
+  rcv : Nat → Q
+  bc : Q
+  xs : Nat → Q
+  md : Q
+  mr : Nat → Q
+
+namespace ChainSpec
+
+def chain (c : ChainSpec) : List Q := (List.range (c.R - 1)).flatMap (fun r => [c.snd r, c.rcv r])
+def mpart (c : ChainSpec) : List Q :=
+  [c.bc] ++ (List.range (c.R - 1)).map c.xs ++ [c.md] ++ (List.range (c.R - 1)).map c.mr
+/-- the group in its canonical order -/
+def list (c : ChainSpec) : List Q := c.chain ++ c.mpart
+
+structure OK (c : ChainSpec) : Prop where
+  two : 2 ≤ c.R
+  tag_inj : ∀ i j, i < c.R - 1 → j < c.R - 1 → c.tag i = c.tag j → i = j
+  mtag_ne : ∀ i, i < c.R - 1 → c.tag i ≠ c.mtag
+  snd : ∀ r, r < c.R - 1 → (c.snd r).h.sync = c.tag r ∧ (c.snd r).h.typ = TYPE_SEND ∧
+    (c.snd r).h.peers = [((r + 1 : Nat) : Int)] ∧ (c.snd r).ev.pid = ((r : Nat) : Int)
+  rcv : ∀ r, r < c.R - 1 → (c.rcv r).h.sync = c.tag r ∧ (c.rcv r).h.typ = TYPE_DONE ∧
+    (c.rcv r).h.peers = [((r : Nat) : Int)] ∧ (c.rcv r).ev.pid = ((r + 1 : Nat) : Int)
+  bc : c.bc.h.sync = c.mtag ∧ c.bc.h.typ = TYPE_BCLIST ∧
+    c.bc.h.peers = (List.range (c.R - 1)).map (fun p => ((p : Nat) : Int)) ∧ c.bc.ev.pid = ((c.R - 1 : Nat) : Int)
+  xs : ∀ p, p < c.R - 1 → (c.xs p).h.sync = c.mtag ∧ (c.xs p).h.typ = TYPE_SEND ∧
+    (c.xs p).h.peers = [((p : Nat) : Int)] ∧ (c.xs p).ev.pid = ((c.R - 1 : Nat) : Int)
+  md : c.md.h.sync = c.mtag ∧ c.md.h.typ = TYPE_MCAST ∧ c.md.h.peers = [] ∧ c.md.ev.pid = ((c.R - 1 : Nat) : Int)
+  mr : ∀ p, p < c.R - 1 → (c.mr p).h.sync = c.mtag ∧ (c.mr p).h.typ = TYPE_DONE ∧
+    (c.mr p).h.peers = [((c.R - 1 : Nat) : Int)] ∧ (c.mr p).ev.pid = ((p : Nat) : Int)
+
+end ChainSpec
+
+theorem flatMap_congr' {α β : Type} {l : List α} {f g : α → List β} (h : ∀ a ∈ l, f a = g a) :
+    l.flatMap f = l.flatMap g := by
+  induction l with
+  | nil => rfl
+  | cons a l ih =>
+    simp only [List.flatMap_cons]
+    rw [h a (by simp), ih (fun x hx => h x (List.mem_cons_of_mem _ hx))]
+
+theorem flatMap_range_ite {β : Type} (g : Nat → List β) (r0 : Nat) : ∀ n,
+    (List.range n).flatMap (fun r => if r = r0 then g r else []) = if r0 < n then g r0 else [] := by
+  intro n
+  induction n with
+  | zero => simp
+  | succ n ih =>
+    rw [List.range_succ, List.flatMap_append, ih]
+    by_cases h1 : r0 < n
+    · have : ¬ n = r0 := by omega
+      simp [h1, this, show r0 < n + 1 by omega]
+    · by_cases h2 : n = r0
+      · subst h2; simp
+      · simp [h1, h2, show ¬ r0 < n + 1 by omega]
+
+theorem sum_map_eq_length {α : Type} (f : α → Nat) : ∀ (l : List α), (∀ a ∈ l, f a = 1) → (l.map f).sum = l.length := by
+  intro l
+  induction l with
+  | nil => intro _; rfl
+  | cons a l ih =>
+    intro h
+    simp only [List.map_cons, List.sum_cons, List.length_cons, h a (by simp),
+      ih (fun x hx => h x (List.mem_cons_of_mem _ hx))]
+    omega
+
+theorem sum_map_eq_zero {α : Type} (f : α → Nat) : ∀ (l : List α), (∀ a ∈ l, f a = 0) → (l.map f).sum = 0 := by
+  intro l
+  induction l with
+  | nil => intro _; rfl
+  | cons a l ih =>
+    intro h
+    simp only [List.map_cons, List.sum_cons, h a (by simp), ih (fun x hx => h x (List.mem_cons_of_mem _ hx))]
+
+section chain
+variable (c : ChainSpec) (ok : c.OK)
+include ok
+
+theorem chain_filter_tag (r0 : Nat) (h0 : r0 < c.R - 1) :
+    c.list.filter (fun y => decide (y.h.sync = c.tag r0)) = [c.snd r0, c.rcv r0] := by
+  have hA : c.chain.filter (fun y => decide (y.h.sync = c.tag r0)) = [c.snd r0, c.rcv r0] := by
+    simp only [ChainSpec.chain, List.filter_flatMap]
+    rw [flatMap_congr' (g := fun r => if r = r0 then [c.snd r, c.rcv r] else [])]
+    · rw [flatMap_range_ite]; simp [h0]
+    · intro r hr
+      have hr' : r < c.R - 1 := List.mem_range.mp hr
+      have e1 := (ok.snd r hr').1
+      have e2 := (ok.rcv r hr').1
+      by_cases hrr : r = r0
+      · subst hrr; simp [e1, e2]
+      · have : ¬ c.tag r = c.tag r0 := fun h => hrr (ok.tag_inj r r0 hr' h0 h)
+        simp [e1, e2, this, hrr]
+  have hM : c.mpart.filter (fun y => decide (y.h.sync = c.tag r0)) = [] := by
+    simp only [List.filter_eq_nil_iff, ChainSpec.mpart, List.mem_append, List.mem_singleton, List.mem_map, List.mem_range]
+    have hne : ¬ c.mtag = c.tag r0 := fun h => ok.mtag_ne r0 h0 h.symm
+    rintro y (((rfl | ⟨p, hp, rfl⟩) | rfl) | ⟨p, hp, rfl⟩)
+    · simp [ok.bc.1, hne]
+    · simp [(ok.xs p hp).1, hne]
+    · simp [ok.md.1, hne]
+    · simp [(ok.mr p hp).1, hne]
+  simp [ChainSpec.list, hA, hM]
+
+theorem chain_filter_mtag : c.list.filter (fun y => decide (y.h.sync = c.mtag)) = c.mpart := by
+  have hA : c.chain.filter (fun y => decide (y.h.sync = c.mtag)) = [] := by
+    simp only [List.filter_eq_nil_iff, ChainSpec.chain, List.mem_flatMap, List.mem_range]
+    rintro y ⟨r, hr, hy⟩
+    simp only [List.mem_cons, List.not_mem_nil, or_false] at hy
+    rcases hy with rfl | rfl
+    · simp [(ok.snd r hr).1, ok.mtag_ne r hr]
+    · simp [(ok.rcv r hr).1, ok.mtag_ne r hr]
+  have hM : c.mpart.filter (fun y => decide (y.h.sync = c.mtag)) = c.mpart := by
+    simp only [List.filter_eq_self, ChainSpec.mpart, List.mem_append, List.mem_singleton, List.mem_map, List.mem_range]
+    rintro y (((rfl | ⟨p, hp, rfl⟩) | rfl) | ⟨p, hp, rfl⟩)
+    · simp [ok.bc.1]
+    · simp [(ok.xs p hp).1]
+    · simp [ok.md.1]
+    · simp [(ok.mr p hp).1]
+  simp [ChainSpec.list, hA, hM]
+
+theorem closed_chain_tag (r0 : Nat) (h0 : r0 < c.R - 1) (l : List Q) (hp : l.Perm [c.snd r0, c.rcv r0]) :
+    (l.foldl sgStep {}).closed = true := by
+  obtain ⟨s1, s2, s3, s4⟩ := ok.snd r0 h0
+  obtain ⟨r1, r2, r3, r4⟩ := ok.rcv r0 h0
+  have hne : l ≠ [] := by intro h; subst h; simpa using hp.length_eq
+  rw [fold_closed l {} hne]
+  have hopn : (l.foldl sgStep {}).opn = 1 := by
+    rw [fold_opn, (hp.map opnOf).sum_nat]
+    simp [opnOf, s2, r2, TYPE_SEND, TYPE_DONE, TYPE_BCLIST, TYPE_MCAST]
+  have hcls : (l.foldl sgStep {}).cls = 1 := by
+    rw [fold_cls, (hp.map clsOf).sum_nat]
+    simp [clsOf, s2, r2, TYPE_SEND, TYPE_DONE]
+  obtain ⟨pn, _, pm⟩ := fold_peers l {}
+  have hperm : (l.foldl sgStep {}).peers.Perm [((r0 : Nat) : Int), ((r0 + 1 : Nat) : Int)] := by
+    apply (List.perm_ext_iff_of_nodup (pn (by simp)) (by simp; omega)).mpr
+    intro x
+    rw [pm x]
+    simp only [List.not_mem_nil, false_or, List.mem_cons, or_false]
+    constructor
+    · rintro ⟨q, hq, hx⟩
+      have := hp.mem_iff.mp hq
+      simp only [List.mem_cons, List.not_mem_nil, or_false] at this
+      rcases this with rfl | rfl
+      · rw [s3, s4] at hx; simpa using hx
+      · rw [r3, r4] at hx; simpa [or_comm] using hx
+    · rintro (rfl | rfl)
+      · exact ⟨c.snd r0, hp.mem_iff.mpr (by simp), Or.inl s4.symm⟩
+      · exact ⟨c.rcv r0, hp.mem_iff.mpr (by simp), Or.inl r4.symm⟩
+  have hlen : (l.foldl sgStep {}).peers.length = 2 := by simpa using hperm.length_eq
+  have hmc : (l.foldl sgStep {}).mcast = false := by
+    apply fold_mcast_false l {} rfl (by omega)
+    intro q hq
+    have := hp.mem_iff.mp hq
+    simp only [List.mem_cons, List.not_mem_nil, or_false] at this
+    rcases this with rfl | rfl
+    · simp [s2, TYPE_SEND, TYPE_BCLIST, TYPE_MCAST]
+    · simp [r2, TYPE_DONE, TYPE_BCLIST, TYPE_MCAST]
+  simp [closedFn, hopn, hcls, hlen, hmc]
+
+theorem closed_mtag (l : List Q) (hp : l.Perm c.mpart) : (l.foldl sgStep {}).closed = true := by
+  obtain ⟨b1, b2, b3, b4⟩ := ok.bc
+  obtain ⟨d1, d2, d3, d4⟩ := ok.md
+  have hbc : c.bc ∈ l := hp.mem_iff.mpr (by simp [ChainSpec.mpart])
+  have hne : l ≠ [] := by intro h; subst h; simp at hbc
+  rw [fold_closed l {} hne]
+  have hopn : (l.foldl sgStep {}).opn = (c.R - 1) + (c.R - 1) + 1 := by
+    rw [fold_opn, (hp.map opnOf).sum_nat]
+    simp only [ChainSpec.mpart, List.map_append, List.sum_append, List.map_cons, List.map_nil, List.sum_cons, List.sum_nil]
+    rw [sum_map_eq_length opnOf _ (by
+        intro a ha
+        obtain ⟨p, hp', rfl⟩ := List.mem_map.mp ha
+        simp [opnOf, (ok.xs p (List.mem_range.mp hp')).2.1, TYPE_SEND, TYPE_BCLIST, TYPE_MCAST]),
+      sum_map_eq_zero opnOf _ (by
+        intro a ha
+        obtain ⟨p, hp', rfl⟩ := List.mem_map.mp ha
+        simp [opnOf, (ok.mr p (List.mem_range.mp hp')).2.1, TYPE_SEND, TYPE_DONE, TYPE_BCLIST, TYPE_MCAST])]
+    simp [opnOf, b2, b3, d2, TYPE_BCLIST, TYPE_MCAST]
+  have hcls : (l.foldl sgStep {}).cls = c.R - 1 := by
+    rw [fold_cls, (hp.map clsOf).sum_nat]
+    simp only [ChainSpec.mpart, List.map_append, List.sum_append, List.map_cons, List.map_nil, List.sum_cons, List.sum_nil]
+    rw [sum_map_eq_zero clsOf ((List.range (c.R - 1)).map c.xs) (by
+        intro a ha
+        obtain ⟨p, hp', rfl⟩ := List.mem_map.mp ha
+        simp [clsOf, (ok.xs p (List.mem_range.mp hp')).2.1, TYPE_SEND, TYPE_DONE]),
+      sum_map_eq_length clsOf ((List.range (c.R - 1)).map c.mr) (by
+        intro a ha
+        obtain ⟨p, hp', rfl⟩ := List.mem_map.mp ha
+        simp [clsOf, (ok.mr p (List.mem_range.mp hp')).2.1])]
+    simp [clsOf, b2, d2, TYPE_BCLIST, TYPE_MCAST, TYPE_DONE]
+  obtain ⟨pn, _, pm⟩ := fold_peers l {}
+  have hR := ok.two
+  have hperm : (l.foldl sgStep {}).peers.Perm ((List.range c.R).map (fun k => ((k : Nat) : Int))) := by
+    have hnd : ((List.range c.R).map (fun k => ((k : Nat) : Int))).Nodup := by
+      rw [List.Nodup, List.pairwise_map]
+      exact (List.nodup_range (n := c.R)).imp (fun h hc => h (by omega))
+    apply (List.perm_ext_iff_of_nodup (pn (by simp)) hnd).mpr
+    intro x
+    rw [pm x]
+    simp only [List.not_mem_nil, false_or, List.mem_map, List.mem_range]
+    constructor
+    · rintro ⟨q, hq, hx⟩
+      have := hp.mem_iff.mp hq
+      simp only [ChainSpec.mpart, List.mem_append, List.mem_singleton, List.mem_map, List.mem_range] at this
+      rcases this with ((rfl | ⟨p, hp', rfl⟩) | rfl) | ⟨p, hp', rfl⟩
+      · rw [b3, b4] at hx
+        rcases hx with rfl | hx
+        · exact ⟨c.R - 1, by omega, rfl⟩
+        · obtain ⟨k, hk, rfl⟩ := List.mem_map.mp hx
+          exact ⟨k, by have := List.mem_range.mp hk; omega, rfl⟩
+      · obtain ⟨_, _, x3, x4⟩ := ok.xs p hp'
+        rw [x3, x4] at hx
+        rcases hx with rfl | hx
+        · exact ⟨c.R - 1, by omega, rfl⟩
+        · simp only [List.mem_singleton] at hx; subst hx; exact ⟨p, by omega, rfl⟩
+      · rw [d3, d4] at hx
+        rcases hx with rfl | hx
+        · exact ⟨c.R - 1, by omega, rfl⟩
+        · simp at hx
+      · obtain ⟨_, _, x3, x4⟩ := ok.mr p hp'
+        rw [x3, x4] at hx
+        rcases hx with rfl | hx
+        · exact ⟨p, by omega, rfl⟩
+        · simp only [List.mem_singleton] at hx; subst hx; exact ⟨c.R - 1, by omega, rfl⟩
+    · rintro ⟨k, hk, rfl⟩
+      by_cases hk' : k < c.R - 1
+      · refine ⟨c.mr k, hp.mem_iff.mpr ?_, Or.inl (ok.mr k hk').2.2.2.symm⟩
+        simp only [ChainSpec.mpart, List.mem_append, List.mem_map, List.mem_range]
+        exact Or.inr ⟨k, hk', rfl⟩
+      · have : k = c.R - 1 := by omega
+        subst this
+        exact ⟨c.bc, hbc, Or.inl b4.symm⟩
+  have hlen : (l.foldl sgStep {}).peers.length = c.R := by simpa using hperm.length_eq
+  have hmc : (l.foldl sgStep {}).mcast = true := fold_mcast_true l {} ⟨c.bc, hbc, b2⟩
+  simp only [closedFn, hopn, hcls, hlen, hmc, if_true, Bool.and_eq_true, decide_eq_true_eq]
+  omega
+
+/-- **Complete group detected, for every arrival order.**  For every number of ranks `R ≥ 2`, every
+decoration (timestamps, durations, tids, names) and every permutation `q` of the events of a complete
+chain all-reduce group, `detect_final` holds of `q`. -/
+theorem detectFinal_chain (q : List Q) (hp : q.Perm c.list) : detectFinal q = true := by
+  have hR := ok.two
+  have h0 : 0 < c.R - 1 := by omega
+  have hs : c.snd 0 ∈ q := hp.mem_iff.mpr (by
+    simp only [ChainSpec.list, ChainSpec.chain, List.mem_append, List.mem_flatMap, List.mem_range]
+    exact Or.inl ⟨0, h0, by simp⟩)
+  have hb : c.bc ∈ q := hp.mem_iff.mpr (by simp [ChainSpec.list, ChainSpec.mpart])
+  apply detectFinal_of_tags q (c.snd 0) c.bc hs hb (by rw [(ok.snd 0 h0).1, ok.bc.1]; exact ok.mtag_ne 0 h0)
+  intro x hx
+  have hx' := hp.mem_iff.mp hx
+  simp only [ChainSpec.list, ChainSpec.chain, ChainSpec.mpart, List.mem_append, List.mem_flatMap, List.mem_range,
+    List.mem_singleton, List.mem_map] at hx'
+  have chainCase : ∀ r, r < c.R - 1 → x.h.sync = c.tag r →
+      ((q.filter (fun y => decide (y.h.sync = x.h.sync))).foldl sgStep {}).closed = true := by
+    intro r hr hsync
+    rw [hsync]
+    apply closed_chain_tag c ok r hr
+    rw [← chain_filter_tag c ok r hr]
+    exact hp.filter _
+  have mCase : x.h.sync = c.mtag →
+      ((q.filter (fun y => decide (y.h.sync = x.h.sync))).foldl sgStep {}).closed = true := by
+    intro hsync
+    rw [hsync]
+    apply closed_mtag c ok
+    rw [← chain_filter_mtag c ok]
+    exact hp.filter _
+  rcases hx' with ⟨r, hr, hy⟩ | (((rfl | ⟨p, hp', rfl⟩) | rfl) | ⟨p, hp', rfl⟩)
+  · simp only [List.mem_cons, List.not_mem_nil, or_false] at hy
+    rcases hy with rfl | rfl
+    · exact chainCase r hr (ok.snd r hr).1
+    · exact chainCase r hr (ok.rcv r hr).1
+  · exact mCase ok.bc.1
+  · exact mCase (ok.xs p hp').1
+  · exact mCase ok.md.1
+  · exact mCase (ok.mr p hp').1
+
+end chain
+
 end AiuVerif.Flow
